@@ -63,7 +63,8 @@ def make_case(rng, nfun, nver):
     # queries at positions inside the shared prefix and in the unchanged second file
     t0 = texts[0]
     pre = t0.index("pub fn uses()")
-    qs = ["diag,0", "diag,1", "sem,0", "sem,1"]
+    qs = ["diag,0", "diag,1", "sem,0", "sem,1", f"semrange,0,0,{pre}", f"semrange,0,{pre // 3},{pre // 2}", f"semrange,1,0,{len(m1)}",
+          f"sig,0,{t0.index('  late()') + 7}", f"prepare,0,{t0.index('pub fn early()') + 7}", "tree,0", "tree,1"]
     def off(text, needle, k=0):
         return text.index(needle) + k
     qs += [f"hover,0,{off(t0, 'pub fn early()', 7)}", f"hover,0,{off(t0, 'pub fn early2(', 7)}",
